@@ -21,6 +21,7 @@ func init() {
 			"LP-PIPE entryIterator.Next: nothing but the filters' verdicts removes a record",
 			"PV-API JSON integers are not converted through float64; Docker labels are stored under KeyToLabel(key); no unsafe.String",
 			"PV-FRESH JSON path stack per line; FE-BOOL IsInstant",
+			"LP-DROP `or` operands see the same line; ERR-LOOP the logfmt/json scans run to the end of the line (an entry lands in the stream of all its labels)",
 		},
 		NotDecided: []string{"'in time order' across streams depends on the storage delivering records in time order (C04)", "count equality with the number of matches is C01"},
 		Rules: func(r *Run) {
@@ -45,6 +46,8 @@ func init() {
 			ruleNoUnsafeStrings(r, []string{enginePkg, dockerlogPkg})
 			ruleJSONPathStateFresh(r)
 			ruleIsInstant(r)
+			ruleLPDrop(r)          // `a or b`: the right side sees the line the matcher was given, so a kept entry keeps its line
+			ruleExtractorErrors(r) // a logfmt scan runs to the end of the line: every requested key is looked for
 		},
 	})
 }
